@@ -40,5 +40,7 @@ enum {
 };
 
 void verif_event(int kind, uint64_t a, uint64_t b, uint64_t c);
+void verif_arm_alloc_fault(unsigned long k);
+int verif_disarm_fault(void);
 
 #endif
